@@ -70,8 +70,12 @@ func VH_C10_kubernetes() {
 			k.Queue = zz.OneOf("kqueue"+si, "", "q1")
 			k.ExecuteHookOnSynchronization = zz.OneOf("kexec"+si, "", "true", "false")
 			k.KeepFullObjectsInMemory = zz.OneOf("kkeep"+si, "", "true", "false")
-			if zz.Bool("kon_event" + si) {
+			switch zz.Len("kon_event"+si, 0, 2) {
+			case 1:
 				k.ExecuteHookOnEvents = []kemtypes.WatchEventType{kemtypes.WatchEventAdded}
+			case 2:
+				// declared, but empty: the hook is never executed on events
+				k.ExecuteHookOnEvents = []kemtypes.WatchEventType{}
 			}
 			if zz.Bool("kwatch_event" + si) {
 				k.WatchEventTypes = []kemtypes.WatchEventType{kemtypes.WatchEventDeleted}
@@ -114,7 +118,10 @@ func VH_C10_kubernetes() {
 		zz.Assert(out.Group == in.Group, "group_kept")
 		switch {
 		case in.ExecuteHookOnEvents != nil:
-			zz.Assert(len(out.Monitor.EventTypes) == 1 && out.Monitor.EventTypes[0] == kemtypes.WatchEventAdded, "execute_hook_on_event_has_priority")
+			zz.Assert(len(out.Monitor.EventTypes) == len(in.ExecuteHookOnEvents), "execute_hook_on_event_has_priority")
+			if len(in.ExecuteHookOnEvents) == 1 && len(out.Monitor.EventTypes) == 1 {
+				zz.Assert(out.Monitor.EventTypes[0] == kemtypes.WatchEventAdded, "execute_hook_on_event_has_priority")
+			}
 		case in.WatchEventTypes != nil:
 			zz.Assert(len(out.Monitor.EventTypes) == 1 && out.Monitor.EventTypes[0] == kemtypes.WatchEventDeleted, "watch_event_used")
 		default:
